@@ -48,8 +48,12 @@ def publish_value_(
 
         return ops.multicast(subject_factory=subject_factory, mapper=mapper)
 
-    subject = BehaviorSubject(initial_value)
-    return ops.multicast(subject)
+    def publish_value(source: Observable[_T1]) -> ConnectableObservable[_T1]:
+        # one subject per source the operator is applied to
+        subject = BehaviorSubject(initial_value)
+        return source.pipe(ops.multicast(subject))
+
+    return publish_value
 
 
 __all__ = ["publish_value_"]
